@@ -24,6 +24,9 @@ pub struct Node {
     pub k: String, // dir | file | lnk | fifo | hard
     #[serde(default)]
     pub b: String, // link body (lnk) or hardlink target id as string (hard)
+    /// name as hex bytes (names that are not valid UTF-8); takes precedence over `n`
+    #[serde(default)]
+    pub nhex: Option<String>,
     /// link body as hex bytes (bodies that are not valid UTF-8); takes precedence over `b`
     #[serde(default)]
     pub bhex: Option<String>,
@@ -153,6 +156,44 @@ impl Scratch {
         paths.insert(ID_SECRET, p.join("out/secret"));
         for n in nodes {
             let parent = paths.get(&n.p).ok_or_else(|| format!("node {} has unknown parent {}", n.id, n.p))?.clone();
+            if n.k == "deepchain" {
+                // a directory whose absolute host path is longer than PATH_MAX: 17 nested directories with 250-byte names,
+                // created relative to descriptors; later nodes below it are addressed through /proc/self/fd/<n>
+                let pc = cstr(&parent);
+                let mut fd = unsafe { libc::open(pc.as_ptr(), libc::O_PATH | libc::O_DIRECTORY | libc::O_CLOEXEC) };
+                if fd < 0 {
+                    return Err(format!("deepchain: open parent: errno {}", errno()));
+                }
+                for i in 0..17 {
+                    let name = CString::new(format!("{}{}", if i == 0 { n.n.clone() } else { "L".to_string() }, "x".repeat(248))).unwrap();
+                    if unsafe { libc::mkdirat(fd, name.as_ptr(), 0o755) } != 0 {
+                        return Err(format!("deepchain: mkdirat level {}: errno {}", i, errno()));
+                    }
+                    let nfd = unsafe { libc::openat(fd, name.as_ptr(), libc::O_PATH | libc::O_DIRECTORY | libc::O_NOFOLLOW | libc::O_CLOEXEC) };
+                    unsafe { libc::close(fd) };
+                    if nfd < 0 {
+                        return Err(format!("deepchain: openat level {}: errno {}", i, errno()));
+                    }
+                    fd = nfd;
+                }
+                let via = PathBuf::from(format!("/proc/self/fd/{}", fd));
+                // keep `fd` open for the lifetime of the scratch area (children are created through it); pin a second reference
+                let viac = cstr(&via);
+                let pfd = unsafe { libc::open(viac.as_ptr(), libc::O_PATH | libc::O_DIRECTORY | libc::O_CLOEXEC) };
+                if pfd >= 0 {
+                    if let Some(st) = fstat(pfd) {
+                        self.ids.insert((st.st_dev, st.st_ino), n.id);
+                        if let Some(old) = self.pins.insert(n.id, pfd) {
+                            unsafe { libc::close(old) };
+                        }
+                        if n.id >= self.next_id {
+                            self.next_id = n.id + 1;
+                        }
+                    }
+                }
+                paths.insert(n.id, via);
+                continue;
+            }
             if n.k == "rootattr" {
                 // mode / owner of the root directory itself
                 let rp = cstr(p.join("root"));
@@ -174,7 +215,13 @@ impl Scratch {
                 paths.insert(n.id, path);
                 continue;
             }
-            let path = parent.join(&n.n);
+            let path = match &n.nhex {
+                Some(h) => {
+                    let raw: Vec<u8> = (0..h.len() / 2).filter_map(|i| u8::from_str_radix(&h[2 * i..2 * i + 2], 16).ok()).collect();
+                    parent.join(std::ffi::OsStr::from_bytes(&raw))
+                }
+                None => parent.join(&n.n),
+            };
             let c = cstr(&path);
             let mode = n.mode.unwrap_or(if n.k == "dir" { 0o755 } else { 0o644 });
             let rc = match n.k.as_str() {
@@ -256,33 +303,65 @@ impl Scratch {
         json!({"dents": dents, "inodes": ino_list})
     }
 
+    /// fd-relative walk (directories whose absolute path exceeds PATH_MAX are walked like any other)
     fn walk(&mut self, dir: &Path, dir_id: u32, dents: &mut Vec<Value>, inodes: &mut BTreeMap<u32, Value>, depth: u32) {
-        if depth > 64 {
+        let c = cstr(dir);
+        let fd = unsafe { libc::open(c.as_ptr(), libc::O_RDONLY | libc::O_DIRECTORY | libc::O_CLOEXEC) };
+        if fd < 0 {
             return;
         }
-        let rd = match std::fs::read_dir(dir) {
-            Ok(r) => r,
-            Err(_) => return,
-        };
-        let mut names: Vec<std::ffi::OsString> = rd.filter_map(|e| e.ok()).map(|e| e.file_name()).collect();
+        self.walk_fd(fd, dir_id, dents, inodes, depth);
+    }
+
+    /// consumes `fd` (closed by closedir)
+    fn walk_fd(&mut self, fd: i32, dir_id: u32, dents: &mut Vec<Value>, inodes: &mut BTreeMap<u32, Value>, depth: u32) {
+        if depth > 64 {
+            unsafe { libc::close(fd) };
+            return;
+        }
+        let dp = unsafe { libc::fdopendir(fd) };
+        if dp.is_null() {
+            unsafe { libc::close(fd) };
+            return;
+        }
+        let mut names: Vec<Vec<u8>> = Vec::new();
+        loop {
+            let e = unsafe { libc::readdir(dp) };
+            if e.is_null() {
+                break;
+            }
+            let nm = unsafe { std::ffi::CStr::from_ptr((*e).d_name.as_ptr()) }.to_bytes().to_vec();
+            if nm != b"." && nm != b".." {
+                names.push(nm);
+            }
+        }
         names.sort();
+        let dfd = unsafe { libc::dirfd(dp) };
         for name in names {
-            let path = dir.join(&name);
-            let st = match lstat(&path) {
-                Some(s) => s,
-                None => continue,
-            };
+            let cn = CString::new(name.clone()).unwrap();
+            let mut st: libc::stat = unsafe { std::mem::zeroed() };
+            if unsafe { libc::fstatat(dfd, cn.as_ptr(), &mut st, libc::AT_SYMLINK_NOFOLLOW) } != 0 {
+                continue;
+            }
             let mut id = self.id_of(st.st_dev, st.st_ino);
             if id == 0 {
+                let pfd = unsafe { libc::openat(dfd, cn.as_ptr(), libc::O_PATH | libc::O_NOFOLLOW | libc::O_CLOEXEC) };
+                if pfd < 0 {
+                    continue;
+                }
                 id = self.next_id;
-                self.pin(id, &path);
+                self.next_id += 1;
+                self.ids.insert((st.st_dev, st.st_ino), id);
+                self.pins.insert(id, pfd);
             }
             let k = kind_of(st.st_mode);
-            dents.push(json!({"p": dir_id, "n": name.to_string_lossy(), "c": id}));
+            dents.push(json!({"p": dir_id, "n": String::from_utf8_lossy(&name), "c": id}));
             if !inodes.contains_key(&id) {
                 let mut v = json!({"k": k, "mode": st.st_mode & 0o7777, "nlink": st.st_nlink, "uid": st.st_uid});
                 if k == "lnk" {
-                    v["b"] = json!(std::fs::read_link(&path).map(|p| p.to_string_lossy().to_string()).unwrap_or_default());
+                    let mut buf = vec![0u8; 8192];
+                    let n = unsafe { libc::readlinkat(dfd, cn.as_ptr(), buf.as_mut_ptr() as *mut libc::c_char, buf.len()) };
+                    v["b"] = json!(if n >= 0 { String::from_utf8_lossy(&buf[..n as usize]).to_string() } else { String::new() });
                 }
                 if k == "file" {
                     v["size"] = json!(st.st_size);
@@ -292,10 +371,14 @@ impl Scratch {
                 }
                 inodes.insert(id, v);
                 if k == "dir" {
-                    self.walk(&path, id, dents, inodes, depth + 1);
+                    let sub = unsafe { libc::openat(dfd, cn.as_ptr(), libc::O_RDONLY | libc::O_DIRECTORY | libc::O_NOFOLLOW | libc::O_CLOEXEC) };
+                    if sub >= 0 {
+                        self.walk_fd(sub, id, dents, inodes, depth + 1);
+                    }
                 }
             }
         }
+        unsafe { libc::closedir(dp) };
     }
 
     pub fn cleanup(&mut self) {
